@@ -4,6 +4,9 @@
 //   param_driver sweep <out.ndjson>               : records a trace over every object of every factory (defaults,
 //                                                   ids, clones, independent modification) for ConfigurableTrace.tla
 #include "trace.h"
+#include <cstring>
+#include <nano/core/verif.h>
+#include <nano/logger.h>
 #include <cmath>
 #include <fstream>
 #include <iostream>
@@ -521,6 +524,119 @@ vt::J param_event(const char* e, int64_t obj, const parameter_t& p, const std::v
         .s("text", pi.text);
 }
 
+// a deterministic observation of what an object DOES (bit patterns of the results of one fixed call): an object and its clone with
+// equal parameters must give the same observation ("behaves identically"); "" when there is nothing cheap to observe
+void digest(std::ostringstream& os, const double v)
+{
+    uint64_t bits = 0;
+    std::memcpy(&bits, &v, sizeof(bits));
+    os << std::hex << bits << ",";
+}
+
+template <class tobject>
+std::string behaviour(const tobject& object)
+{
+    std::ostringstream os;
+    try
+    {
+        if constexpr (std::is_base_of_v<function_t, tobject>)
+        {
+            vector_t x(object.size()), g(object.size());
+            for (tensor_size_t i = 0; i < x.size(); ++i)
+            {
+                x(i) = 0.25 + 0.125 * static_cast<double>(i % 5);
+            }
+            digest(os, object.vgrad(x, g));
+            for (tensor_size_t i = 0; i < g.size(); ++i)
+            {
+                digest(os, g(i));
+            }
+        }
+        else if constexpr (std::is_base_of_v<loss_t, tobject>)
+        {
+            tensor4d_t targets(3, 4, 1, 1), outputs(3, 4, 1, 1), vgrads;
+            tensor1d_t values, errors;
+            for (tensor_size_t i = 0; i < targets.size(); ++i)
+            {
+                targets(i) = (i % 4 == i / 4) ? 1.0 : -1.0;
+                outputs(i) = 0.5 * static_cast<double>((i * 7) % 5) - 1.0;
+            }
+            object.value(targets, outputs, values);
+            object.error(targets, outputs, errors);
+            object.vgrad(targets, outputs, vgrads);
+            for (tensor_size_t i = 0; i < 3; ++i)
+            {
+                digest(os, values(i));
+                digest(os, errors(i));
+            }
+            for (tensor_size_t i = 0; i < vgrads.size(); ++i)
+            {
+                digest(os, vgrads(i));
+            }
+        }
+        else if constexpr (std::is_base_of_v<splitter_t, tobject>)
+        {
+            for (const auto& [train, valid] : object.split(arange(0, 23)))
+            {
+                for (const auto i : train)
+                {
+                    os << i << ",";
+                }
+                os << "|";
+                for (const auto i : valid)
+                {
+                    os << i << ",";
+                }
+                os << ";";
+            }
+        }
+        else if constexpr (std::is_base_of_v<tuner_t, tobject>)
+        {
+            param_spaces_t spaces;
+            spaces.emplace_back("a", param_space_t::type::linear, make_tensor<scalar_t>(make_dims(6), 0.0, 1.0, 2.0, 3.0, 4.0, 5.0));
+            spaces.emplace_back("b", param_space_t::type::log10, make_tensor<scalar_t>(make_dims(5), 0.01, 0.1, 1.0, 10.0, 100.0));
+            const auto callback = [](const tensor2d_t& params)
+            {
+                tensor1d_t values(params.size<0>());
+                for (tensor_size_t i = 0; i < values.size(); ++i)
+                {
+                    values(i) = (params(i, 0) - 2.0) * (params(i, 0) - 2.0) + std::fabs(std::log10(params(i, 1)) - 1.0);
+                }
+                return values;
+            };
+            for (const auto& step : object.optimize(spaces, callback, make_null_logger()))
+            {
+                digest(os, step.m_value);
+                for (const auto v : step.m_param)
+                {
+                    digest(os, v);
+                }
+            }
+        }
+        else if constexpr (std::is_base_of_v<solver_t, tobject>)
+        {
+            const auto function = function_t::all().get("sphere")->make(3, 10);
+            vector_t   x0(3);
+            x0(0) = 1.0;
+            x0(1) = -0.5;
+            x0(2) = 0.25;
+            verif::set_default_seed(17);
+            const auto state = object.minimize(*function, x0, make_null_logger());
+            digest(os, state.fx());
+            for (tensor_size_t i = 0; i < 3; ++i)
+            {
+                digest(os, state.x()(i));
+            }
+            os << static_cast<int>(state.status()) << "," << state.fcalls() << "," << state.gcalls();
+        }
+    }
+    catch (const std::exception& e)
+    {
+        os << "exception:" << e.what();
+    }
+    return os.str();
+}
+
 template <class tobject>
 void sweep_object(const std::string& factory, const std::string& id, const tobject& object, int64_t& nobj)
 {
@@ -532,7 +648,7 @@ void sweep_object(const std::string& factory, const std::string& id, const tobje
     {
         // not a configurable object (benchmark functions): only the id and the clone's id can be observed
         auto clone = object.clone();
-        vt::put(vt::J("Clone").i("obj", b).i("of", a).b("idOK", clone->type_id() == id).b("equal", true).i("n", 0));
+        vt::put(vt::J("Clone").i("obj", b).i("of", a).b("idOK", clone->type_id() == id).b("equal", true).i("n", 0).b("behaves", behaviour(*clone) == behaviour(object)));
         return;
     }
     else
@@ -644,11 +760,11 @@ void sweep_object(const std::string& factory, const std::string& id, const tobje
     // configure the original away from its defaults, clone it, then modify the clone
     auto original = object.clone();
     vt::put(vt::J("Clone").i("obj", a + 100000).i("of", a).b("idOK", original->type_id() == id).b("equal", original->parameters() == object.parameters()).i(
-        "n", static_cast<int64_t>(original->parameters().size())));
+        "n", static_cast<int64_t>(original->parameters().size())).b("behaves", behaviour(*original) == behaviour(object)));
     modify(*original, static_cast<const tobject*>(nullptr), a + 100000, 0);
     auto clone = original->clone();
     vt::put(vt::J("Clone").i("obj", b).i("of", a + 100000).b("idOK", clone->type_id() == id).b("equal", clone->parameters() == original->parameters()).i(
-        "n", static_cast<int64_t>(clone->parameters().size())));
+        "n", static_cast<int64_t>(clone->parameters().size())).b("behaves", behaviour(*clone) == behaviour(*original)));
     modify(*clone, original.get(), b, 1);
     for (const auto& p : original->parameters())
     {
